@@ -478,6 +478,12 @@ enum Ans {
     Hang,
 }
 
+impl Drop for Sup {
+    fn drop(&mut self) {
+        let _ = std::fs::remove_file(&self.errfile);
+    }
+}
+
 impl Sup {
     fn new(limit_ms: u64) -> Sup {
         let k = SUP_SEQ.fetch_add(1, std::sync::atomic::Ordering::SeqCst);
